@@ -246,10 +246,11 @@ func c03EncodeCase(c c03Case, path string, lines []pkglint.VerifC03Line) string 
 }
 
 type c03Obs struct {
-	Panic bool
-	Log   []string // encoded entries
-	Disk  string
-	State string
+	Panic  bool
+	Log    []string // encoded entries
+	Disk   string
+	State  string
+	Chmods int // model only: number of chmod operations (Custom fixer of checkExecutable with autofix = true)
 }
 
 // c03ObserveImpl runs the case on the real code; returns the observation and the loaded lines.
@@ -287,10 +288,11 @@ func c03ParseModel(ans string) (c03Obs, int, error) {
 		return c03Obs{Panic: true}, 0, nil
 	}
 	f := strings.Split(ans, ";")
-	if len(f) != 4 {
+	if len(f) != 5 {
 		return c03Obs{}, 0, fmt.Errorf("oracle answer %q", ans)
 	}
 	o := c03Obs{Disk: unhx(f[1]), State: f[3]}
+	o.Chmods, _ = strconv.Atoi(f[4])
 	if f[0] != "" {
 		o.Log = strings.Split(f[0], ",")
 	}
@@ -401,7 +403,7 @@ func c03CheckCases(ctx *Ctx, res *Result, cases []c03Case, count bool) {
 		path := "/tmp/" + c.Base
 		reqs[i] = c03EncodeCase(c, path, r.Lines)
 	}
-	ans, err := runOracle(ctx, "c03", reqs)
+	ans, err := c03RunOracle(ctx, reqs) // = runOracle, long requests in parallel (c03_sizes.go)
 	if err != nil {
 		res.Broken = err.Error()
 		return
@@ -416,7 +418,7 @@ func c03CheckCases(ctx *Ctx, res *Result, cases []c03Case, count bool) {
 		sreq = append(sreq, consRequest(0, c.Content, impl[i].entries, impl[i].r.Disk))
 		sidx = append(sidx, i)
 	}
-	sans, err := runOracle(ctx, "c03", sreq)
+	sans, err := c03RunOracle(ctx, sreq)
 	if err != nil {
 		res.Broken = err.Error()
 		return
@@ -459,6 +461,7 @@ func c03CheckCases(ctx *Ctx, res *Result, cases []c03Case, count bool) {
 				for _, e := range im.entries {
 					res.Count("U.logged."+string(e.Kind), 1)
 				}
+				c03CountSizes(res, "U", im.entries)
 			}
 			if im.r.Disk != c.Content {
 				res.Count("U.files_rewritten", 1)
@@ -501,6 +504,38 @@ func c03CheckCases(ctx *Ctx, res *Result, cases []c03Case, count bool) {
 				FoundInput: true, Size: c03CaseSize(c), Replay: rep})
 			continue
 		}
+		// mode changes are changes: the executable bits may only be cleared by a logged
+		// "Clearing executable bits" (the Custom fixer of checkExecutable), and with --autofix a
+		// logged one must have been done
+		if !im.obs.Panic && im.r.Mode != 0 {
+			chmodLogged := false
+			for _, e := range im.entries {
+				if e.Kind == 'C' {
+					chmodLogged = true
+				}
+			}
+			if count && c.Mode&0o111 != 0 && c03HasEvent(c, "chmod") {
+				switch {
+				case im.r.Mode != c.Mode:
+					res.Count("U.chmod_done", 1)
+				case len(c.Only) > 0 && c.Autofix:
+					res.Count("U.chmod_skipped_under_only", 1)
+				}
+			}
+			if im.r.Mode != c.Mode && !(chmodLogged && c.Autofix && im.r.Mode == c.Mode&^0o111) {
+				res.AddViolation(Violation{Key: "C03/unit/unlogged-mode-change",
+					What:       fmt.Sprintf("Autofix script (%s, --only %q): the mode of the file changed from %o to %o, AUTOFIX lines %v", mode, c.Only, c.Mode, im.r.Mode, im.obs.Log),
+					FoundInput: true, Size: c03CaseSize(c), Replay: rep})
+				continue
+			}
+			// (a script's own Custom fixer "custom-chmod" only describes: its line is no promise)
+			if chmodLogged && c.Autofix && im.r.Mode&0o111 != 0 && !c03HasOp(c, "custom-chmod") {
+				res.AddViolation(Violation{Key: "C03/unit/chmod-logged-not-done",
+					What:       fmt.Sprintf("Autofix script (%s): \"Clearing executable bits\" was logged but the mode is still %o", mode, im.r.Mode),
+					FoundInput: true, Size: c03CaseSize(c), Replay: rep})
+				continue
+			}
+		}
 		// 2. model = implementation on the observables
 		diff := ""
 		switch {
@@ -515,6 +550,8 @@ func c03CheckCases(ctx *Ctx, res *Result, cases []c03Case, count bool) {
 			diff = fmt.Sprintf("RawText/Text afterwards: impl %s, model %s", im.obs.State, m.State)
 		case !c.Autofix && nops != 0:
 			diff = "model performs file operations without --autofix"
+		case im.r.Mode != 0 && (im.r.Mode != c.Mode) != (m.Chmods > 0):
+			diff = fmt.Sprintf("mode of the file: impl %o -> %o, model performs %d chmod operations", c.Mode, im.r.Mode, m.Chmods)
 		}
 		if diff != "" {
 			what := "state"
@@ -525,6 +562,8 @@ func c03CheckCases(ctx *Ctx, res *Result, cases []c03Case, count bool) {
 				what = "log"
 			case strings.HasPrefix(diff, "bytes"):
 				what = "disk"
+			case strings.HasPrefix(diff, "mode"):
+				what = "mode"
 			}
 			rep["broken"] = "correspondence Autofix script = Model.Autofix.run (" + what + ")"
 			rep["diff"] = diff
@@ -540,6 +579,7 @@ func c03Unit(ctx *Ctx, res *Result, rng *Rng) {
 		n = 100000
 	}
 	var cases []c03Case
+	sizedGenerated := map[int]int{}
 	for i := 0; i < n; i++ {
 		r := rng.Fork()
 		plist := r.Chance(35)
@@ -548,22 +588,40 @@ func c03Unit(ctx *Ctx, res *Result, rng *Rng) {
 			base = "PLIST"
 		}
 		content := c03GenFile(r, plist)
+		// 10 % of the scripts: one operation with a text of a boundary length (c03_sizes.go)
+		var sized *c03Sized
+		if r.Chance(10) {
+			sized = c03NewSized(r, sizedGenerated[-1], plist, ctx.Tier)
+			sizedGenerated[-1]++
+			sizedGenerated[sized.Class]++
+			content = sized.Content(r, content)
+		}
 		mode := uint32(0o644)
 		if r.Chance(15) {
 			mode = 0o755
 		}
 		// the lines as the real loader sees them, to aim the operations
 		probe := pkglint.VerifAutofixScript(false, false, nil, base, mode, content, nil)
-		evs := c03GenEvents(r, probe.Lines, plist, mode)
+		var evs []pkglint.VerifC03Event
+		if sized != nil {
+			evs = sized.Events(r, probe.Lines, plist, mode)
+		} else {
+			evs = c03GenEvents(r, probe.Lines, plist, mode)
+		}
 		var only []string
-		if r.Chance(20) {
-			only = []string{Pick(r, []string{"Diag one", "Other", "thing", "sorted before", "Silent", "nothing matches"})}
+		if sized != nil {
+			only = sized.Only(r, evs)
+		} else if r.Chance(20) {
+			only = []string{Pick(r, []string{"Diag one", "Other", "thing", "sorted before", "Silent", "nothing matches", "executable", "Should not be"})}
 			if r.Chance(30) {
 				only = append(only, Pick(r, []string{"Diag", "SilentAutofixFormat", "zzz"}))
 			}
 		}
 		for _, m := range [][2]bool{{false, false}, {false, true}, {true, false}, {true, true}} {
 			if m[0] && m[1] && !r.Chance(30) {
+				continue
+			}
+			if sized != nil && sized.SkipMode(m[0], m[1]) {
 				continue
 			}
 			cases = append(cases, c03Case{Autofix: m[0], Show: m[1], Only: only, Base: base, Mode: mode, Content: content, Events: evs})
@@ -582,6 +640,38 @@ func c03Unit(ctx *Ctx, res *Result, rng *Rng) {
 			return
 		}
 	}
+	// assertions about the implementation (not about the generator): the executable-bit fix is
+	// performed when selected and skipped under a non-matching --only; if the real code stops doing
+	// either, the correspondence of Custom / --only is gone -> a violation without input, not a broken check
+	for k, min := range map[string]int{"U.chmod_done": 20, "U.chmod_skipped_under_only": 5} {
+		if c, _ := res.Distribution[k].(int); c < min {
+			res.AddViolation(Violation{Key: "C03/coverage/unit-custom-only", FoundInput: false,
+				What:   fmt.Sprintf("unit scripts: %s = %d < %d: the executable-bit fix is no longer observed both done and skipped under --only", k, c, min),
+				Replay: map[string]any{"broken": "coverage floor " + k + " (correspondence of Autofix.Custom under --only)"}})
+			return
+		}
+	}
+	c03UnitSizeFloors(ctx, res, sizedGenerated)
+}
+
+func c03HasEvent(c c03Case, kind string) bool {
+	for _, ev := range c.Events {
+		if ev.Kind == kind {
+			return true
+		}
+	}
+	return false
+}
+
+func c03HasOp(c c03Case, kind string) bool {
+	for _, ev := range c.Events {
+		for _, op := range ev.Ops {
+			if op.Kind == kind {
+				return true
+			}
+		}
+	}
+	return false
 }
 
 func c03ReplayScript(ctx *Ctx, res *Result, rep map[string]any) {
